@@ -280,6 +280,10 @@ func (e *Engine) loopEntry(st *State, fr *Frame, li *loopInfo, pred *ssa.BasicBl
 			panic(unsupported("loop-carried interior pointer %s", phi.Name()))
 		}
 		st.Assume(e.wellFormed(nv, st.next))
+		if od := e.isOwnedPtr(t); od != nil {
+			// read-only traversal: the loop variable points to some owned substructure
+			e.addTree(st, od, nv.L[0], e.freshTree(st, od, phi.Comment))
+		}
 		fr.regs[phi] = nv
 		if phi.Comment != "" {
 			fr.names[phi.Comment] = NameBinding{V: nv}
@@ -942,8 +946,12 @@ func (e *Engine) execSimple(st *State, fr *Frame, in ssa.Instruction, b *ssa.Bas
 			ref := st.next
 			st.next = e.nameTerm(st, "next", Add(st.next, IntLit(1)))
 			pv := Val{T: resolve(x.Type(), fr.env), L: []Term{ref}}
-			e.storeLoc(st, e.locOf(pv), e.zeroVal(t))
-			e.initAbstract(st, pv, t, 0)
+			if od := e.ownedDecl(t); od != nil {
+				e.newOwned(st, od, ref, t)
+			} else {
+				e.storeLoc(st, e.locOf(pv), e.zeroVal(t))
+				e.initAbstract(st, pv, t, 0)
+			}
 			fr.regs[x] = pv
 		}
 	case *ssa.BinOp:
@@ -1125,7 +1133,7 @@ func (e *Engine) fieldAddr(st *State, fr *Frame, base Val, field int, rt types.T
 	}
 	off, n := e.lay.fieldRange(stt, field)
 	ft := resolve(stt.Field(field).Type(), fr.env)
-	if _, isStruct := ft.Underlying().(*types.Struct); isStruct && loc.Kind == LocObj {
+	if _, isStruct := ft.Underlying().(*types.Struct); isStruct && (loc.Kind == LocObj) {
 		if _, named := ft.(*types.Named); named {
 			// a struct embedded by value is an object of its own type at a sub-reference of the
 			// enclosing object: &x.f is a first-class pointer (it may be stored, compared, passed on)
